@@ -1,8 +1,9 @@
 //! bounded(every *.block, *.tx and *.header fixture of /repo/test_data; of each: every truncation to a length <= 64 and a sample of longer ones, every single-bit
 //! flip in the first 48 bytes and at a stride through the rest, bytes replaced by 0x00 / 0x1b / 0x5f / 0x9f / 0xbf / 0xff at a stride (length-field and
 //! indefinite-marker corruption), and splices of the first half with the second half of the next fixture; plus every output and address found in the decodable
-//! fixtures under the same damage; `thorough` divides the strides by 8): MultiEraBlock::decode, MultiEraTx::decode and decode_for_era (7 eras),
-//! MultiEraHeader::decode (all tags), MultiEraOutput::decode (7 eras), Address::from_bytes / ByronAddress::from_bytes + decode return a value or an error —
+//! fixtures and 21 crafted Plutus data items (every constructor form, bignums, chunked strings, containers in both length forms, nested) bare and as inline datums,
+//! under the same damage; `thorough` divides the strides by 8): MultiEraBlock::decode, MultiEraTx::decode and decode_for_era (7 eras),
+//! MultiEraHeader::decode (all tags), MultiEraOutput::decode (7 eras), PlutusData / KeepRaw<PlutusData> decoding, Address::from_bytes / ByronAddress::from_bytes + decode return a value or an error —
 //! a panic is a violation. Traversing what decodes (tx hashes, outputs, addresses) is part of the run. Exit 1 with the first panics if not.
 use pallas_addresses::{Address, ByronAddress};
 use pallas_traverse::{Era, MultiEraBlock, MultiEraHeader, MultiEraOutput, MultiEraTx};
@@ -18,6 +19,8 @@ fn decode_all(kind: &str, b: &[u8]) {
         "tx" => { if let Ok(tx) = MultiEraTx::decode(b) { let _ = tx.hash(); for o in tx.outputs() { let _ = o.address(); let _ = o.datum(); } let _ = tx.fee(); let _ = tx.mints(); }
             for e in ERAS { if let Ok(tx) = MultiEraTx::decode_for_era(e, b) { let _ = tx.hash(); let _ = tx.outputs().len(); let _ = tx.size(); } } }
         "header" => { for tag in 0u8..8 { for sub in [None, Some(0u8), Some(1)] { if let Ok(h) = MultiEraHeader::decode(tag, sub, b) { let _ = h.hash(); let _ = h.slot(); let _ = h.number(); } } } }
+        "plutus" => { if let Ok(d) = pallas_codec::minicbor::decode::<pallas_primitives::PlutusData>(b) { let _ = pallas_codec::minicbor::to_vec(&d); }
+            let _ = pallas_codec::minicbor::decode::<pallas_codec::utils::KeepRaw<pallas_primitives::PlutusData>>(b); }
         "output" => { for e in ERAS { if let Ok(o) = MultiEraOutput::decode(e, b) { let _ = o.address(); let _ = o.value().coin(); let _ = o.datum(); } } }
         _ => { if let Ok(a) = Address::from_bytes(b) { let _ = a.to_string(); let _ = a.to_vec(); if let Address::Byron(x) = &a { let _ = x.decode(); } }
             if let Ok(x) = ByronAddress::from_bytes(b) { let _ = x.decode(); let _ = x.to_base58(); } }
@@ -43,6 +46,16 @@ fn main() {
         if *kind == "tx" { if let Ok(tx) = MultiEraTx::decode(bytes) { for (i, o) in tx.outputs().iter().enumerate().take(3) {
             extra.push((format!("{name} output #{i}"), "output", o.encode()));
             if let Ok(a) = o.address() { extra.push((format!("{name} output #{i} address"), "address", a.to_vec())); } } } }
+    }
+    // crafted Plutus data (every constructor form, integers, strings, containers in both length forms, nested), bare and as the inline datum of a Babbage output
+    let datums: Vec<&str> = vec!["d8669f0080ff", "d866820080", "d8668218c89f0102ff", "d8799f0102ff", "d87980", "d905009f41aaff", "d9050180", "00", "1b0000000100000000", "3bffffffffffffffff",
+        "c249010000000000000000", "c349010000000000000000", "43010203", "5f43010203420405ff", "9f0102ff", "820102", "a1010a", "bf010aff", "d8799fd8799f00ffa1d87980d8669f0180ffff",
+        "d8669f1b00000001000000009f5f4101ffffff", "9f9f9f9f00ffffffff"];
+    for (k, h) in datums.iter().enumerate() {
+        let d = hex::decode(h).unwrap();
+        corpus.push((format!("crafted datum #{k} ({h})"), "plutus", d.clone()));
+        let mut out = vec![0xa3u8, 0x00, 0x58, 0x1d, 0x61]; out.extend([0u8; 28]); out.extend([0x01, 0x1a, 0x00, 0x0f, 0x42, 0x40, 0x02, 0x82, 0x01, 0xd8, 0x18, 0x58, d.len() as u8]); out.extend(&d);
+        corpus.push((format!("Babbage output with inline datum #{k} ({h})"), "output", out));
     }
     corpus.extend(extra);
     if corpus.len() < 100 { println!("VIOLATED: only {} corpus entries — fixtures not found", corpus.len()); std::process::exit(1); }
